@@ -291,3 +291,78 @@ Proof.
   - exact write_parental_rating. - exact write_subtitling. - exact write_content.
 Qed.
 Print Assumptions C14_write_bodies.
+
+(* (e) loops of 0..n descriptors of mixed tags.  entry_rt d d': the tag is a byte, the body fits 255 bytes, and
+   either the body is empty and d' is the bare header (S7: an empty list or name comes back as "no body") or the
+   body-level round trip body_rt of d's tag holds.  Parsing what writeDescriptorsWithLength emits for the whole loop
+   yields the entry-wise results, and the iterator stops exactly 2 + loop_size bytes on, whatever follows. *)
+Theorem C14_loop_roundtrip : forall ds ds' out rest,
+  enc_descriptors_with_length ds = Ok out -> items_bytes_ok out -> loop_size ds < 4096 ->
+  Forall2 entry_rt ds ds' ->
+  parse_descriptors (new_iter (bytes_of_items out ++ rest)) = Ok (ds', mk_iter (bytes_of_items out ++ rest) (2 + loop_size ds)).
+Proof. exact loop_roundtrip. Qed.
+Print Assumptions C14_loop_roundtrip.
+
+(* the tags for which body_rt is proved, with their domains (any Descriptor_Length, any foreign bodies in d) *)
+Theorem C14_body_roundtrips :
+  (forall d v, Descriptor_Tag d = 82 -> Descriptor_StreamIdentifier d = Some v -> byte_range (DescriptorStreamIdentifier_ComponentTag v) ->
+     body_rt d (set_StreamIdentifier (desc_hdr 82 1) v)) /\
+  (forall d v, Descriptor_Tag d = 6 -> Descriptor_DataStreamAlignment d = Some v -> byte_range (DescriptorDataStreamAlignment_Type v) ->
+     body_rt d (set_DataStreamAlignment (desc_hdr 6 1) v)) /\
+  (forall d, 128 <= Descriptor_Tag d <= 254 -> 0 < zlen (Descriptor_UserDefined d) < 256 ->
+     body_rt d (set_UserDefined (desc_hdr (Descriptor_Tag d) (zlen (Descriptor_UserDefined d))) (Descriptor_UserDefined d))) /\
+  (forall d v, Descriptor_Tag d = 64 -> Descriptor_NetworkName d = Some v -> 0 < zlen (DescriptorNetworkName_Name v) < 256 ->
+     body_rt d (set_NetworkName (desc_hdr 64 (zlen (DescriptorNetworkName_Name v))) v)) /\
+  (forall d v, 0 <= Descriptor_Tag d < 256 -> is_user_defined (Descriptor_Tag d) = false -> ~ In (Descriptor_Tag d) typed_tags ->
+     Descriptor_Unknown d = Some v -> DescriptorUnknown_Tag v = Descriptor_Tag d -> 0 < zlen (DescriptorUnknown_Content v) < 256 ->
+     body_rt d (set_Unknown (desc_hdr (Descriptor_Tag d) (zlen (DescriptorUnknown_Content v))) v)) /\
+  (forall d v, Descriptor_Tag d = 15 -> Descriptor_PrivateDataIndicator d = Some v -> 0 <= DescriptorPrivateDataIndicator_Indicator v < 2 ^ 32 ->
+     body_rt d (set_PrivateDataIndicator (desc_hdr 15 4) v)) /\
+  (forall d v, Descriptor_Tag d = 95 -> Descriptor_PrivateDataSpecifier d = Some v -> 0 <= DescriptorPrivateDataSpecifier_Specifier v < 2 ^ 32 ->
+     body_rt d (set_PrivateDataSpecifier (desc_hdr 95 4) v)) /\
+  (forall d v k, Descriptor_Tag d = 14 -> Descriptor_MaximumBitrate d = Some v -> DescriptorMaximumBitrate_Bitrate v = k * 50 -> 0 <= k < 2 ^ 22 ->
+     body_rt d (set_MaximumBitrate (desc_hdr 14 3) v)) /\
+  (forall d v, Descriptor_Tag d = 5 -> Descriptor_Registration d = Some v -> 0 <= DescriptorRegistration_FormatIdentifier v < 2 ^ 32 ->
+     zlen (DescriptorRegistration_AdditionalIdentificationInfo v) < 252 ->
+     body_rt d (set_Registration (desc_hdr 5 (4 + zlen (DescriptorRegistration_AdditionalIdentificationInfo v))) v)) /\
+  (forall d v, Descriptor_Tag d = 10 -> Descriptor_ISO639LanguageAndAudioType d = Some v ->
+     length (DescriptorISO639LanguageAndAudioType_Language v) = 3%nat -> byte_range (DescriptorISO639LanguageAndAudioType_Type v) ->
+     body_rt d (set_ISO639LanguageAndAudioType (desc_hdr 10 4) v)) /\
+  (forall d v, Descriptor_Tag d = 72 -> Descriptor_Service d = Some v -> byte_range (DescriptorService_Type v) ->
+     3 + zlen (DescriptorService_Provider v) + zlen (DescriptorService_Name v) < 256 ->
+     body_rt d (set_Service (desc_hdr 72 (3 + zlen (DescriptorService_Provider v) + zlen (DescriptorService_Name v))) v)) /\
+  (forall d v, Descriptor_Tag d = 40 -> Descriptor_AVCVideo d = Some v -> byte_range (DescriptorAVCVideo_ProfileIDC v) ->
+     byte_range (DescriptorAVCVideo_LevelIDC v) -> 0 <= DescriptorAVCVideo_CompatibleFlags v < 32 ->
+     body_rt d (set_AVCVideo (desc_hdr 40 4) v)).
+Proof.
+  repeat split.
+  - exact brt_stream_identifier. - exact brt_data_stream_alignment. - exact brt_user_defined. - exact brt_network_name.
+  - exact brt_unknown. - exact brt_private_data_indicator. - exact brt_private_data_specifier. - exact brt_maximum_bitrate.
+  - exact brt_registration. - exact brt_iso639. - exact brt_service. - exact brt_avc_video.
+Qed.
+Print Assumptions C14_body_roundtrips.
+
+(* a mixed loop inside the hypotheses: stream identifier (struct Length wrong), an empty content descriptor
+   (zero items: comes back as the bare header), a user-defined descriptor; 0xAB follows the loop *)
+Definition ex_mixed : list Descriptor :=
+  [ set_StreamIdentifier (desc_hdr 82 99) {| DescriptorStreamIdentifier_ComponentTag := 7 |};
+    set_Content (desc_hdr 84 3) {| DescriptorContent_Items := [] |};
+    set_UserDefined (desc_hdr 200 0) [1; 2; 3] ].
+Definition ex_mixed_parsed : list Descriptor :=
+  [ set_StreamIdentifier (desc_hdr 82 1) {| DescriptorStreamIdentifier_ComponentTag := 7 |};
+    desc_hdr 84 0;
+    set_UserDefined (desc_hdr 200 3) [1; 2; 3] ].
+Example C14_loop_example : Forall2 entry_rt ex_mixed ex_mixed_parsed /\
+  exists out, enc_descriptors_with_length ex_mixed = Ok out /\
+    bytes_of_items out = [240; 10; 82; 1; 7; 84; 0; 200; 3; 1; 2; 3] /\
+    parse_descriptors (new_iter (bytes_of_items out ++ [171])) = Ok (ex_mixed_parsed, mk_iter (bytes_of_items out ++ [171]) 12).
+Proof.
+  split.
+  - apply Forall2_cons; [|apply Forall2_cons; [|apply Forall2_cons; [|apply Forall2_nil]]].
+    + split; [cbv; intuition discriminate|]. split; [reflexivity|]. right. split; [reflexivity|].
+      apply brt_stream_identifier; [reflexivity|reflexivity|cbv; intuition discriminate].
+    + split; [cbv; intuition discriminate|]. split; [reflexivity|]. left. split; reflexivity.
+    + split; [cbv; intuition discriminate|]. split; [reflexivity|]. right. split; [reflexivity|].
+      apply (brt_user_defined (set_UserDefined (desc_hdr 200 0) [1; 2; 3])); cbv; intuition discriminate.
+  - eexists. split; [vm_compute; reflexivity|]. split; vm_compute; reflexivity.
+Qed.
